@@ -34,7 +34,7 @@ theorem inv_run (cfg : Config) (G : String → Bool) (hc : CfgOK cfg G) (ops : L
   Cache.inv_run hc ops inv_empty hr
 
 /-- the invariant is not vacuous: a concrete world with live memos satisfies it after a history -/
-example : let cfg : Config := ⟨[("a", .cprop), ("b", .lru)], ["a", "b"], true, true, true, true, true, [("b", ["a"])], [("q", ["a", "b"])], ["b"]⟩
+example : let cfg : Config := ⟨[("a", .cprop), ("b", .lru)], ["a", "b"], true, true, true, true, true, true, [("b", ["a"])], [("q", ["a", "b"])], ["b"]⟩
     RunOK cfg World.empty [.new, .add 0 ⟨"R1", "R", ["1", "0"], "1"⟩, .query 0 "q", .add 0 ⟨"R1", "R", ["1", "2"], "5"⟩,
       .query 0 "q", .remove 0 "R1", .derive 0 "q" [⟨"C1", "C", ["1", "0"], "1"⟩]] := by
   intro cfg
@@ -71,14 +71,16 @@ theorem fresh_refinement_on (cfg : Config) (G : String → Bool) (hc : CfgOK cfg
       funext n; rw [(htab n).2, buildTab_deg]
     simp only [structural, hc1, hd1]
 
-/-- FULL PROPERTY.  If `_invalidate` clears every memoised member, `add` and `remove` call it, and
+/-- FULL PROPERTY.  If `_invalidate` clears every memoised member, `add` (for a single line AND for
+    a multi-line string) and `remove` call it, and
     overriding a name detaches the old component, then for every history of public operations that
     raises no exception, every query on every instance answers as on a freshly built circuit.
     (The three hypotheses are decidable facts about the generated configuration; they are
     instantiated in Props/C16Full.lean, which builds iff lcapy's source satisfies them.) -/
 theorem fresh_refinement (cfg : Config)
     (hclr : ∀ p ∈ cfg.memoised, cfg.isCleared p.1 = true)
-    (hadd : cfg.addInvalidates = true) (hrem : cfg.removeInvalidates = true) (hdet : cfg.overrideDetaches = true)
+    (hadd : cfg.addInvalidates = true) (hmulti : cfg.addMultiInvalidates = true)
+    (hrem : cfg.removeInvalidates = true) (hdet : cfg.overrideDetaches = true)
     (ops : List Op) (hpub : ∀ op ∈ ops, op.isPublic) (hok : NoRaise cfg World.empty ops)
     (i : Nat) (inst : Inst) (hi : (run cfg World.empty ops).insts[i]? = some inst) :
     (∀ q, answer cfg (run cfg World.empty ops) i q = answer cfg (build inst.elts) 0 q) ∧
@@ -91,17 +93,17 @@ theorem fresh_refinement (cfg : Config)
     | none => simp [hk'] at hk
     | some k => exact hclr (s, k) (lookup_mem _ _ _ hk')
   obtain ⟨h1, h2⟩ := fresh_refinement_on cfg (fun _ => true) hc ops
-    (runOK_of_flags cfg hadd hrem hdet ops _ hpub hok) i inst hi
+    (runOK_of_flags cfg hadd hmulti hrem hdet ops _ hpub hok) i inst hi
   exact ⟨fun q => h1 q (fun _ _ => rfl), h2⟩
 
 /-- the hypotheses of `fresh_refinement` are satisfiable by a configuration with live memo slots of
     every kind and a history with an override, queries, a removal, a failing-free copy and work on
     the copy -/
-example : let cfg : Config := ⟨[("a", .cprop), ("b", .lru), ("c", .hasattr)], ["a", "b", "c"], true, true, true, true, true,
+example : let cfg : Config := ⟨[("a", .cprop), ("b", .lru), ("c", .hasattr)], ["a", "b", "c"], true, true, true, true, true, true,
       [("b", ["a", "c"])], [("q", ["a", "c", "b"])], ["b"]⟩
     let ops : List Op := [.new, .add 0 ⟨"R1", "R", ["1", "0"], "1"⟩, .query 0 "q", .add 0 ⟨"R1", "R", ["1", "2"], "5"⟩,
       .query 0 "q", .derive 0 "q" [⟨"R1", "R", ["1", "2"], "5"⟩], .add 1 ⟨"C1", "C", ["2", "0"], "1"⟩, .query 1 "q",
-      .remove 0 "R1", .query 0 "q"]
+      .remove 0 "R1", .addLines 0 [⟨"R3", "R", ["2", "3"], "1"⟩, ⟨"R4", "R", ["3", "0"], "3"⟩]]
     (∀ p ∈ cfg.memoised, cfg.isCleared p.1 = true) ∧ (∀ op ∈ ops, op.isPublic) ∧ NoRaise cfg World.empty ops ∧
     (run cfg World.empty ops).insts.length = 2 := by
   intro cfg ops
@@ -151,6 +153,7 @@ theorem copy_isolated (cfg : Config) (w : World) (op : Op) (k : Nat) (hk : k < w
   | new => exact newInst_other _ _ hk
   | add i e => exact add_other _ _ _ _ (fun h => ht (by simp [Op.target, h]))
   | addRaw i e => exact addRaw_other _ _ _ _ (fun h => ht (by simp [Op.target, h]))
+  | addLines i es => exact addLines_other _ _ _ _ (fun h => ht (by simp [Op.target, h]))
   | remove i nm => exact remove_other _ _ _ _ (fun h => ht (by simp [Op.target, h]))
   | query i q => exact readSlots_other _ _ _ _ (fun h => ht (by simp [Op.target, h]))
   | derive i pre es => exact derive_other _ _ _ _ _ (fun h => ht (by simp [Op.target, h])) hk
@@ -230,6 +233,7 @@ def cfgF14 : Config where
   memoised := [("_components", .hasattr), ("analyse", .lru), ("node_list", .cprop)]
   cleared := ["analyse", "node_list"]
   addInvalidates := true
+  addMultiInvalidates := true
   removeInvalidates := true
   initInvalidates := true
   overrideDetaches := false
@@ -276,5 +280,15 @@ theorem addRaw_on_live_memo_is_stale :
     let ops : List Op := [.new, .add 0 V1, .query 0 "node_list", .addRaw 0 R1]
     answer cfgF14 (run cfgF14 World.empty ops) 0 "node_list" ≠
       answer cfgF14 (build (eltsOf (run cfgF14 World.empty ops) 0)) 0 "node_list" := by decide
+
+/-- why the `_invalidate()` in `add` must not depend on the component `_add` returns: for a
+    multi-line string `_add` returns None, and without the invalidate the memo of a slot that
+    `_invalidate` would clear stays stale -/
+theorem multiline_add_without_invalidate_is_stale :
+    let cfg : Config := { cfgF14 with addMultiInvalidates := false }
+    let ops : List Op := [.new, .add 0 V1, .add 0 R1, .add 0 R2, .query 0 "node_list",
+      .addLines 0 [⟨"R3", "R", ["2", "3"], "1"⟩, ⟨"R4", "R", ["3", "0"], "3"⟩]]
+    answer cfg (run cfg World.empty ops) 0 "node_list" ≠
+      answer cfg (build (eltsOf (run cfg World.empty ops) 0)) 0 "node_list" := by decide
 
 end Lcapy.C16
